@@ -15,76 +15,202 @@
 import re, sys
 from common import *
 
+# Robustness rules (see CONVENTIONS / the robustness task): every marker keys on WHAT IS CALLED — callback
+# PARAMETERS identified by their position/type in the signature, method / field / function / constant names —
+# on nesting and on first-occurrence order; never on the names of locals, loop variables, closure parameters,
+# comments or the spelling of a statement.  Private helpers are followed by textual inlining.
+
 repo, gen = sys.argv[1], sys.argv[2]
-src = strip_rust_comments(read_source(repo, "rs/anda_db_hnsw/src/hnsw.rs"))
-# drop the test module: its helper fns must not shadow the real ones
-cut = src.find("#[cfg(test)]")
-if cut > 0:
-    src = src[:cut]
+src = cut_tests(strip_rust_comments(read_source(repo, "rs/anda_db_hnsw/src/hnsw.rs")))
+ME = "c12_hnsw_order"
 
 
-def order_of(body, markers, where):
+def signature(src, name):
+    """text between `fn name` and the opening brace of its body (generics, parameters, where clause)"""
+    m = re.search(r"\bfn\s+" + re.escape(name) + r"\b", src)
+    if not m:
+        die(f"{ME}: fn {name} not found")
+    return src[m.end():src.index("{", m.end())]
+
+
+def params(sig):
+    """[(name, type text)] of the parameter list of a signature (self excluded)"""
+    i = sig.index("(")
+    depth, j = 0, i
+    while j < len(sig):
+        if sig[j] in "([<{":
+            depth += 1
+        elif sig[j] in ")]>}":
+            depth -= 1
+            if depth == 0:
+                break
+        j += 1
+    out, depth, cur = [], 0, ""
+    for ch in sig[i + 1:j] + ",":
+        if ch in "([<{":
+            depth += 1
+        elif ch in ")]>}":
+            depth -= 1
+        if ch == "," and depth == 0:
+            cur = cur.strip()
+            if ":" in cur and not cur.endswith("self"):
+                n, t = cur.split(":", 1)
+                out.append((n.replace("mut ", "").strip(), t.strip()))
+            cur = ""
+        else:
+            cur += ch
+    return out
+
+
+def ordered(text, markers, where):
+    """codes sorted by first occurrence; a missing marker is an error"""
     pos = []
-    for code, pat in markers:
-        ms = list(re.finditer(pat, body))
-        if len(ms) != 1:
-            die(f"c12_hnsw_order: expected exactly one `{pat}` in {where}, found {len(ms)}")
-        pos.append((ms[0].start(), code))
+    for code, pats in markers:
+        p = first_pos(text, pats)
+        if p < 0:
+            die(f"{ME}: marker {pats} not found in {where}")
+        pos.append((p, code))
     return [c for _, c in sorted(pos)]
 
 
-fw = fn_body(src, "flush_with")
-order_with = order_of(fw, [(0, r"\bnode_f\s*\("), (1, r"\bids_f\s*\("), (2, r"\bmetadata_f\s*\("), (3, r"\bcommit_flush_snapshot\s*\(")], "flush_with")
-# the node callback must sit inside the loop over the snapshot's nodes
-if not re.search(r"for\s*\(\s*id\s*,\s*data\s*\)\s*in\s*&\s*snapshot\s*\.\s*nodes\s*\{[^}]*node_f\s*\(", fw, re.S):
-    die("c12_hnsw_order: node_f is not called inside `for (id, data) in &snapshot.nodes` in flush_with")
+# the in-memory commit: the helper by name, or (inlined) its effect on the saved-version watermark
+COMMIT = [r"/\*commit_flush_snapshot\*/", r"\bcommit_flush_snapshot\s*\(", r"last_saved_version\s*\.\s*fetch_max\s*\("]
 
-fl = fn_body(src, "flush")
-order_flush = order_of(fl, [(0, r"\bf\s*\(\s*\*id\s*,\s*data\s*\)"), (1, r"\bids\s*\.\s*write_all\s*\("), (2, r"\bmetadata\s*\.\s*write_all\s*\("), (3, r"\bcommit_flush_snapshot\s*\(")], "flush")
+# ---- flush_with: the three callbacks are its generic-typed parameters, in signature order node, ids, metadata
+sig = signature(src, "flush_with")
+cbs = [n for n, t in params(sig) if re.fullmatch(r"[A-Z]\w*", t)]
+if len(cbs) != 3:
+    die(f"{ME}: flush_with is expected to take exactly three callback parameters (node, ids, metadata), found {cbs}")
+fw = inlined_body(src, "flush_with")
+order_with = ordered(fw, [(0, [rf"\b{cbs[0]}\s*\("]), (1, [rf"\b{cbs[1]}\s*\("]), (2, [rf"\b{cbs[2]}\s*\("]), (3, COMMIT)], "flush_with")
+
+
+def inside_nodes_loop(body, call_pat, where):
+    """the node callback must be invoked inside an iteration over the snapshot's `.nodes`"""
+    m = re.search(call_pat, body)
+    loops = [x for x in re.finditer(r"\bfor\b[^{;]*\bin\b[^{;]*\.\s*nodes\b[^{;]*\{", body)]
+    loops += [x for x in re.finditer(r"\.\s*nodes\b[^;{]*\.\s*(?:iter|into_iter)\s*\(\s*\)[^;]*?\{", body)]
+    for lp in loops:
+        depth, j = 0, lp.end() - 1
+        while j < len(body):
+            if body[j] == "{":
+                depth += 1
+            elif body[j] == "}":
+                depth -= 1
+                if depth == 0:
+                    break
+            j += 1
+        if m and lp.end() <= m.start() < j:
+            return
+    die(f"{ME}: the node callback is not called inside an iteration over the snapshot's `.nodes` in {where}")
+
+
+inside_nodes_loop(fw, rf"\b{cbs[0]}\s*\(", "flush_with")
+
+# ---- writer-oriented flush: two writers of one type parameter, in signature order (metadata, ids), and one callback
+sig = signature(src, "flush")
+ps = params(sig)
+gen_params = [(n, t) for n, t in ps if re.fullmatch(r"[A-Z]\w*", t)]
+by_type = {}
+for n, t in gen_params:
+    by_type.setdefault(t, []).append(n)
+writers = [v for v in by_type.values() if len(v) == 2]
+callbacks = [v for v in by_type.values() if len(v) == 1]
+if len(writers) != 1 or len(callbacks) != 1:
+    die(f"{ME}: flush is expected to take (metadata writer, ids writer, …, node callback), found {ps}")
+w_meta, w_ids = writers[0]
+cb_node = callbacks[0][0]
+fl = inlined_body(src, "flush")
+order_flush = ordered(fl, [(0, [rf"\b{cb_node}\s*\("]), (1, [rf"\b{w_ids}\s*\.\s*write_all\s*\("]), (2, [rf"\b{w_meta}\s*\.\s*write_all\s*\("]), (3, COMMIT)], "flush")
+inside_nodes_loop(fl, rf"\b{cb_node}\s*\(", "flush")
 
 max_ef = int_const(src, "MAX_EF_SEARCH")
 attempts = int_const(src, "SEARCH_MAX_ATTEMPTS")
 min_layers = int_const(src, "MIN_MAX_LAYERS")
 max_layers = int_const(src, "MAX_MAX_LAYERS")
 
-sa = fn_body(src, "search_attempt")
-truncates = bool(re.search(r"results\s*\.\s*truncate\s*\(\s*top_k\s*\)", sa))
-sl = fn_body(src, "search_layer")
-m_vis = re.search(r"visited\s*\.\s*insert\s*\(\s*neighbor\s*\)", sl)
-m_get = re.search(r"nodes\s*\.\s*get\s*\(\s*&\s*neighbor\s*\)", sl)
-visited_first = bool(m_vis and m_get and m_vis.start() < m_get.start())
-sorted_out = bool(re.search(r"results\s*\.\s*into_sorted_vec\s*\(\s*\)", sl))
+# ---- search_attempt truncates its answer to its `usize` parameter (top_k)
+sa = inlined_body(src, "search_attempt")
+usize_params = [n for n, t in params(signature(src, "search_attempt")) if t == "usize"]
+if len(usize_params) != 1:
+    die(f"{ME}: search_attempt is expected to have exactly one usize parameter (top_k), found {usize_params}")
+truncates = bool(re.search(rf"\.\s*truncate\s*\(\s*{usize_params[0]}\s*\)", sa))
 
-# commit rule of `commit_flush_snapshot`: the snapshot's dirty marks are cleared inside, and only inside,
-# the guard that the global version is still the snapshot's
-cb = fn_body(src, "commit_flush_snapshot")
-gm = re.search(r"if\s+self\s*\.\s*metadata\s*\.\s*read\s*\(\s*\)\s*\.\s*stats\s*\.\s*version\s*==\s*snapshot\s*\.\s*version\s*\{", cb)
-commit_guarded = False
-commit_clears_snapshot_ids = False
-if gm:
-    depth, j = 0, gm.end() - 1
-    while j < len(cb):
-        if cb[j] == "{":
+# ---- search_layer: every variable bound by a loop / closure pattern that is looked up with `.get(&v)` is first
+#      offered to a set with `.insert(v)` (the visited test); the answer is `into_sorted_vec()`
+sl = fn_body(src, "search_layer")
+bound = set()
+for m in re.finditer(r"\bfor\s+([^{;]*?)\s+in\b", sl):
+    bound |= set(re.findall(r"[a-z_]\w*", m.group(1)))
+for m in re.finditer(r"\|([^|{};]*)\|", sl):
+    bound |= set(re.findall(r"[a-z_]\w*", m.group(1)))
+bound -= {"mut", "ref", "_"}
+looked_up = [v for v in sorted(bound) if re.search(rf"\.\s*get\s*\(\s*&\s*{v}\s*\)", sl)]
+if not looked_up:
+    die(f"{ME}: no loop variable of search_layer is looked up with `.get(&v)` (the neighbour lookup)")
+visited_first = True
+for v in looked_up:
+    pi = first_pos(sl, [rf"\.\s*insert\s*\(\s*{v}\s*\)"])
+    pg = first_pos(sl, [rf"\.\s*get\s*\(\s*&\s*{v}\s*\)"])
+    if pi < 0 or pi > pg:
+        visited_first = False
+sorted_out = bool(re.search(r"\.\s*into_sorted_vec\s*\(\s*\)", sl))
+
+# ---- commit rule of `commit_flush_snapshot`: the snapshot's dirty marks are cleared inside, and only inside,
+#      the guard that the global version is still the snapshot's
+cb = inlined_body(src, "commit_flush_snapshot")
+snap_params = [n for n, t in params(signature(src, "commit_flush_snapshot"))]
+if len(snap_params) != 1:
+    die(f"{ME}: commit_flush_snapshot is expected to take the snapshot as its only parameter, found {snap_params}")
+snap = snap_params[0]
+
+
+def block_at(text, open_brace):
+    depth, j = 0, open_brace
+    while j < len(text):
+        if text[j] == "{":
             depth += 1
-        elif cb[j] == "}":
+        elif text[j] == "}":
             depth -= 1
             if depth == 0:
-                break
+                return j
         j += 1
-    block, outside = cb[gm.end():j], cb[:gm.start()] + cb[j + 1:]
-    clears = r"for\s+id\s+in\s*&\s*snapshot\s*\.\s*dirty_ids\s*\{[^}]*\.\s*remove\s*\(\s*id\s*\)"
-    commit_clears_snapshot_ids = bool(re.search(clears, block, re.S))
-    # nothing outside the guard may touch the dirty set
-    commit_guarded = commit_clears_snapshot_ids and not re.search(r"dirty", outside)
+    die(f"{ME}: unbalanced braces in commit_flush_snapshot")
 
-wsrc = strip_rust_comments(read_source(repo, "rs/anda_db/src/index/hnsw.rs"))
-cut = wsrc.find("#[cfg(test)]")
-if cut > 0:
-    wsrc = wsrc[:cut]
-wf = fn_body(wsrc, "flush")
-order_wrapper = order_of(wf, [(0, r"\.\s*flush_with\s*\("), (1, r"\.\s*purge_removed_nodes\s*\(")], "Hnsw::flush")
-wn = fn_body(wsrc, "new")
-order_new = order_of(wn, [(1, r"Hnsw::ids_path\s*\("), (2, r"Hnsw::metadata_path\s*\(")], "Hnsw::new")
+
+commit_guarded = False
+commit_clears_snapshot_ids = False
+glob_ver = r"metadata\b[^=!{]*?\bstats\s*\.\s*version"
+snap_ver = rf"\b{snap}\s*\.\s*version\b"
+clears = lambda t: bool(re.search(rf"\b{snap}\s*\.\s*dirty_ids\b", t) and re.search(r"\.\s*remove\s*\(", t))
+for gm in re.finditer(r"\bif\s+([^{}]*?)(==|!=)([^{}]*?)\{", cb):
+    lhs, op, rhs = gm.group(1), gm.group(2), gm.group(3)
+    if not ((re.search(glob_ver, lhs) and re.search(snap_ver, rhs)) or (re.search(glob_ver, rhs) and re.search(snap_ver, lhs))):
+        continue
+    end = block_at(cb, gm.end() - 1)
+    then_block, rest = cb[gm.end():end], cb[end + 1:]
+    else_block, after = "", rest
+    em = re.match(r"\s*else\s*\{", rest)
+    if em:
+        e_end = block_at(rest, em.end() - 1)
+        else_block, after = rest[em.end():e_end], rest[e_end + 1:]
+    outside = cb[:gm.start()] + after
+    if op == "==":
+        inside, other = then_block, else_block
+    else:
+        inside, other = else_block, then_block
+    commit_clears_snapshot_ids = clears(inside)
+    # nothing outside the guarded block may touch the dirty set
+    touches = lambda t: bool(re.search(r"dirty_nodes|dirty_ids", t))
+    commit_guarded = commit_clears_snapshot_ids and not touches(outside) and not touches(other)
+    break
+
+# ---- the collection wrapper
+wsrc = cut_tests(strip_rust_comments(read_source(repo, "rs/anda_db/src/index/hnsw.rs")))
+wf = inlined_body(wsrc, "flush")
+order_wrapper = ordered(wf, [(0, [r"\.\s*flush_with\s*\("]), (1, [r"\.\s*purge_removed_nodes\s*\("])], "Hnsw::flush")
+wn = inlined_body(wsrc, "new")
+order_new = ordered(wn, [(1, [r"\bids_path\s*\(", r"/\*ids_path\*/"]), (2, [r"\bmetadata_path\s*\(", r"/\*metadata_path\*/"])], "Hnsw::new")
 
 
 def lst(xs):
